@@ -13,27 +13,31 @@ VFaults == {"none", "qsigOtherKey", "poolB", "wrongCN", "bindWrongHash", "qeSign
 Policies == {"ok", "nonceDiffers", "mrTdDiffers", "rtmrExpectDiffers", "minQeAbove"}
 Flips == {"none", "r0", "r1", "r2", "r3"}       \* one bit of that register changed in an otherwise valid, correctly re-signed quote
 Levels == {0, 1, 2}
+Loaders == {"grub", "unsupported"}                \* extract.Opts.Loader: GRUB (TdxDefaultOpts) or the zero value
+CrlFetches == {"ok", "pckCrlFails", "rootCrlFails"}   \* outcome of the CRL downloads (only requested at level 2)
 
 RegOf(f) == CASE f = "r0" -> 0 [] f = "r1" -> 1 [] f = "r2" -> 2 [] f = "r3" -> 3 [] OTHER -> 9
-VerifyOk(v, lvl) == v = "none" \/ (v = "revokedLeaf" /\ lvl < 2)      \* a revoked leaf is only visible with revocation checking
+VerifyOk(v, lvl, cf) == /\ (v = "none" \/ (v = "revokedLeaf" /\ lvl < 2))      \* a revoked leaf is only visible with revocation checking
+                        /\ (lvl = 2 => cf = "ok")                                \* an unavailable CRL fails verification: no "fail open"
 PolicyOk(p) == p = "ok"
 ReplayOk(f) == f = "none" \/ RegOf(f) \notin Measured
 
 \* C18
-MayReturnState(v, p, f, lvl) == VerifyOk(v, lvl) /\ PolicyOk(p) /\ ReplayOk(f)
+MayReturnState(v, p, f, lvl, cf) == VerifyOk(v, lvl, cf) /\ PolicyOk(p) /\ ReplayOk(f)     \* whatever the loader option
 
-VARIABLES v, p, f, lvl, pc, result
-vars == <<v, p, f, lvl, pc, result>>
-Init == v \in VFaults /\ p \in Policies /\ f \in Flips /\ lvl \in Levels /\ pc = "verify" /\ result = "none"
+VARIABLES v, p, f, lvl, ld, cf, pc, result
+vars == <<v, p, f, lvl, ld, cf, pc, result>>
+Init == /\ v \in VFaults /\ p \in Policies /\ f \in Flips /\ lvl \in Levels /\ ld \in Loaders /\ cf \in CrlFetches
+        /\ (cf # "ok" => lvl = 2) /\ pc = "verify" /\ result = "none"
 Fail == result' = "error" /\ pc' = "done"
-VerifyGate == /\ pc = "verify" /\ (IF VerifyOk(v, lvl) THEN pc' = "policy" /\ result' = result ELSE Fail) /\ UNCHANGED <<v, p, f, lvl>>
-PolicyGate == /\ pc = "policy" /\ (IF PolicyOk(p) THEN pc' = "bank" /\ result' = result ELSE Fail) /\ UNCHANGED <<v, p, f, lvl>>
-ExtractBank == /\ pc = "bank" /\ pc' = "replay" /\ UNCHANGED <<v, p, f, lvl, result>>     \* RTMR i -> register i, four registers
-Replay == /\ pc = "replay" /\ (IF ReplayOk(f) THEN result' = "state" /\ pc' = "done" ELSE Fail) /\ UNCHANGED <<v, p, f, lvl>>
+VerifyGate == /\ pc = "verify" /\ (IF VerifyOk(v, lvl, cf) THEN pc' = "policy" /\ result' = result ELSE Fail) /\ UNCHANGED <<v, p, f, lvl, ld, cf>>
+PolicyGate == /\ pc = "policy" /\ (IF PolicyOk(p) THEN pc' = "bank" /\ result' = result ELSE Fail) /\ UNCHANGED <<v, p, f, lvl, ld, cf>>
+ExtractBank == /\ pc = "bank" /\ pc' = "replay" /\ UNCHANGED <<v, p, f, lvl, ld, cf, result>>     \* RTMR i -> register i, all four registers
+Replay == /\ pc = "replay" /\ (IF ReplayOk(f) THEN result' = "state" /\ pc' = "done" ELSE Fail) /\ UNCHANGED <<v, p, f, lvl, ld, cf>>
 Next == VerifyGate \/ PolicyGate \/ ExtractBank \/ Replay
 Spec == Init /\ [][Next]_vars
 
 TypeOK == result \in {"none", "state", "error"}
-StateOnlyBehindBothGates == result = "state" => MayReturnState(v, p, f, lvl)
-ErrorOtherwise == pc = "done" => (result = "state" <=> MayReturnState(v, p, f, lvl))
+StateOnlyBehindBothGates == result = "state" => MayReturnState(v, p, f, lvl, cf)
+ErrorOtherwise == pc = "done" => (result = "state" <=> MayReturnState(v, p, f, lvl, cf))
 =================================================================================
